@@ -1335,6 +1335,9 @@ class ExprCToExpr(ExprReducer):
                 objtype = final
                 expr = ExprMem(expr, final.size * 8)
                 found = True
+            elif isinstance(objtype, (ObjCStruct, ObjCUnion)):
+                # A struct/union is represented by its address
+                found = True
             else:
                 expr = ExprMem(expr, objtype.size * 8)
                 found = True
@@ -1342,7 +1345,7 @@ class ExprCToExpr(ExprReducer):
             if isinstance(objtype, ObjCArray):
                 final = objtype
                 found = True
-            elif isinstance(objtype, ObjCStruct):
+            elif isinstance(objtype, (ObjCStruct, ObjCUnion)):
                 found = True
             else:
                 expr = ExprMem(expr, objtype.size * 8)
@@ -1371,15 +1374,14 @@ class ExprCToExpr(ExprReducer):
                 src = src.ptr
             out = (src, ObjCPtr(src_type.objtype,
                                 void_type.align, void_type.size))
+        elif isinstance(src_type, (ObjCStruct, ObjCUnion)):
+            # A struct/union is represented by its address, which may itself
+            # be read from memory (ptr->next->field)
+            out = (src, ObjCPtr(src_type,
+                                void_type.align, void_type.size))
         elif isinstance(src, ExprMem):
             out = (src.ptr, ObjCPtr(src_type,
                                     void_type.align, void_type.size))
-        elif isinstance(src_type, ObjCStruct):
-            out = (src, ObjCPtr(src_type,
-                                void_type.align, void_type.size))
-        elif isinstance(src_type, ObjCUnion):
-            out = (src, ObjCPtr(src_type,
-                                void_type.align, void_type.size))
         else:
             raise NotImplementedError("unk type")
         return out
@@ -1393,15 +1395,22 @@ class ExprCToExpr(ExprReducer):
         src, src_type = node.args[0].info
         assert isinstance(src_type, (ObjCPtr, ObjCArray))
         void_type = self.types_mngr.void_ptr
-        if isinstance(src_type, ObjCPtr):
-            if isinstance(src_type.objtype, ObjCArray):
+        target = src_type.objtype
+        if isinstance(target, (ObjCStruct, ObjCUnion)):
+            # A struct/union is represented by its address
+            out = (src, target)
+        elif isinstance(src_type, ObjCPtr):
+            if isinstance(target, ObjCArray):
                 size = void_type.size*8
             else:
-                size = src_type.objtype.size * 8
-            out = (ExprMem(src, size), (src_type.objtype))
+                size = target.size * 8
+            out = (ExprMem(src, size), target)
+        elif isinstance(target, ObjCArray):
+            # Array of arrays: the sub array is represented by its address
+            out = (src, target)
         else:
-            size = src_type.objtype.size * 8
-            out = (ExprMem(src, size), (src_type.objtype))
+            size = target.size * 8
+            out = (ExprMem(src, size), target)
         return out
 
     reduction_rules = [reduce_known_expr,
